@@ -151,7 +151,7 @@ type c02Case struct {
 	Nest  int      `json:"nest"`             // number of distinct images on which recovery itself is cut (C10)
 	NoAbs bool     `json:"no_abs,omitempty"` // big sessions: the images are judged by the oracle only, not by the model
 	// observations
-	Images  []dbImgObs `json:"images"`
+	Images []dbImgObs `json:"images"`
 	// asynchronous log only: images in which the newest log file holds records, with that file cut at byte lengths (the
 	// write buffer reaches the file in pieces whose ends fall anywhere in a record, depending on the record sizes)
 	WalCuts []dbImgObs `json:"wal_cuts,omitempty"`
@@ -936,7 +936,7 @@ func genC10(r *rand.Rand, tier string) []Case {
 }
 
 func init() {
-	crashRule := "sessions of 8-20 steps (Put incl. incompressible and rejected values, Delete, forced rotation with flush, synchronous compaction cycles with a size limit that excludes big tables, optional clean Close) run in a child process under strace with small table write buffers; EVERY boundary between two file-system-mutating system calls (write, create, rename, unlink, mkdir, truncate) of any thread yields a directory image (deduplicated), on which the real Open runs in a fresh process (panic/hang/exit are outcomes) and every key is read."
+	crashRule := "sessions of 8-20 steps (Put incl. incompressible and rejected values, Delete, forced rotation with flush, synchronous compaction cycles with a size limit that excludes big tables, optional clean Close) run in a child process under strace with small table write buffers; EVERY boundary between two file-system-mutating system calls (write, create, rename, unlink, mkdir, truncate) of any thread yields a directory image (deduplicated), on which the real Open runs in a fresh process (panic/hang/exit are outcomes) and every key is read. Every second image is in addition recovered by a process that is killed while idle and then opened once more (same content required); with the asynchronous log, images whose newest log file holds records get that file cut at byte lengths through its last record header."
 	register(&Prop{ID: "C02", Num: 2, Gen: genC02, New: func() Case { return &c02Case{} },
 		Rule: crashRule + " Oracle: Open succeeds and the state equals the acknowledged operations, the one in flight optional. Non-trivial: >=1 rotation/compaction and >10 images."})
 	register(&Prop{ID: "C13", Num: 13, Gen: genC13, New: func() Case { return &c02Case{} },
